@@ -11,7 +11,7 @@ tvars == <<nvars, t, l, origin>>
 ASSUME \A i \in 1 .. NT : TLCSet(i, 1) /\ TLCSet(NT + i, 0)
 Ev == Traces[t][l]
 
-FileOf(f) == [j \in 1 .. Len(f) |-> [m |-> f[j].m, cfg |-> ToSet(f[j].cfg)]]
+FileOf(f) == [j \in 1 .. Len(f) |-> [m |-> f[j].m, cfg |-> ToSet(f[j].cfg), kind |-> f[j].kind]]
 FilesOf(e) == [k \in 1 .. Len(e.files) |-> FileOf(e.files[k])]
 
 (* one module: outcome allowed, accepted state faithful *)
@@ -49,6 +49,7 @@ Viol(e) ==
          ELSE IF e.p \notin WriteSet(cfgof[e.m]) THEN "write of a value that was not configured"
          ELSE IF e.p \notin pending[e.m] THEN "configured value written twice"
          ELSE IF e.m \in polled THEN "configured value written after the first poll"
+         ELSE IF ready THEN "configured value written after the ready report"
          ELSE IF e.v # Exp(cfgof[e.m]).writes[e.p] THEN "value handed to write_<p> not the configured one"
          ELSE ""
     [] e.ev = "poll" ->
@@ -57,7 +58,8 @@ Viol(e) ==
          ELSE ""
     [] e.ev = "running" ->
          IF started # Mods THEN "node runs with modules not started"
-         ELSE IF \E m \in Mods : pending[m] \ Refusable(m) # {} THEN "configured write lost"
+         ELSE IF \E m \in Mods : pending[m] \ Refusable(m) # {} THEN "ready although a configured write is missing"
+         ELSE IF \E m \in Mods : kindof[m] \in PolledKinds /\ m \notin polled THEN "ready before the first poll of a module"
          ELSE IF ToSet(e.registered) # Mods THEN "registered modules"
          ELSE ""
     [] e.ev = "cfgkept" -> IF e.before # e.after THEN "processing changed the configuration" ELSE ""
@@ -67,7 +69,7 @@ Viol(e) ==
 Apply(e) ==
   CASE e.ev = "module" -> UNCHANGED <<nvars, origin>>
     [] e.ev = "node" -> LET fs == FilesOf(e) IN
-                        /\ cfgof' = Merge(fs)
+                        /\ cfgof' = Merge(fs) /\ kindof' = KindMerge(fs) /\ ready' = FALSE
                         /\ created' = [m \in AllNames(fs) |-> "no"]
                         /\ pending' = [m \in AllNames(fs) |-> {}]
                         /\ registered' = {} /\ node' = "building" /\ reported' = {}
@@ -80,8 +82,10 @@ Apply(e) ==
     [] e.ev = "poll" ->  \* configured values the range check refused (loose clause) are dropped silently first
          /\ pending' = [pending EXCEPT ![e.m] = {}]
          /\ polled' = polled \cup {e.m}
-         /\ UNCHANGED <<cfgof, created, registered, node, reported, started, origin>>
-    [] e.ev = "running" -> UNCHANGED <<nvars, origin>>
+         /\ UNCHANGED <<cfgof, kindof, ready, created, registered, node, reported, started, origin>>
+    [] e.ev = "running" ->  \* (configured values the range check refused are dropped silently, as at "poll")
+         /\ ready' = TRUE /\ pending' = [m \in Mods |-> {}]
+         /\ UNCHANGED <<cfgof, kindof, created, registered, node, reported, started, polled, origin>>
     [] e.ev = "cfgkept" -> UNCHANGED <<nvars, origin>>
 
 (* named deviation (findings.d/C10.json, fixed in /repo by d0a74b7; a regression is reported    *)
@@ -90,7 +94,7 @@ Apply(e) ==
 DevStartBeforeAbort(e) == e.ev = "refuse" /\ e.started # <<>> /\ Viol(e) = ""
 
 TInit == /\ t \in 1 .. NT /\ l = 1 /\ origin = <<>>
-         /\ cfgof = <<>> /\ created = <<>> /\ registered = {} /\ node = "building" /\ reported = {}
+         /\ cfgof = <<>> /\ kindof = <<>> /\ ready = FALSE /\ created = <<>> /\ registered = {} /\ node = "building" /\ reported = {}
          /\ started = {} /\ pending = <<>> /\ polled = {}
 
 TStep ==
@@ -108,7 +112,7 @@ TStep ==
 
 TSpec == TInit /\ [][TStep]_tvars
 
-TInv == l > Len(Traces[t]) + 1 \/ Mods = {} \/ (NoHalfModule /\ DecideFirst /\ NeverIgnored)
+TInv == l > Len(Traces[t]) + 1 \/ Mods = {} \/ (NoHalfModule /\ DecideFirst /\ NeverIgnored /\ WritesBeforeReady)
 
 Track == TLCSet(t, IF l > TLCGet(t) THEN l ELSE TLCGet(t))
 Verdicts == \A i \in 1 .. NT :
